@@ -25,6 +25,7 @@ RULE = (
     "construction with p_i off a node or a lookup outside the table's range, or a rejection / non-mutation case on "
     "a dict. After every valid construction the caller's own table is overwritten in place (tables.scribble) and the object's "
     "m_scaled_func, diffusivity lookup and m_i must be what they were. Distinct = hash of the case record."
+    " Every valid wrapper is also copied (copy.copy, copy.deepcopy, pickle round trip) and each copy must give the original's m_i, m_scaled_func and diffusivity lookups (inside and outside the table)."
 )
 ASSUMPTIONS = [
     "tables have increasing pressure and positive properties (rows with p <= 0 of the shipped CSVs are dropped)",
@@ -266,6 +267,7 @@ def check_case(case) -> Result:
     # (asserted for the object's functions and m_i; the `pvt_props` attribute of a wrapper built from a dict shares the
     # arrays of the columns it did not create with the caller - observed on the unchanged tree, not part of C09)
     mq = ms.copy()
+    tables.copies_agree(res, "C09/copy-is-the-same-fluid", fluid, pq, np.concatenate([mq, [mq[0] - 1.0, mq[-1] * 2 + 1.0, -1e300, 1e300]]), f"{cls.__name__} ({case['container']})")
     before = (np.asarray(fluid.m_scaled_func(pq), float).copy(), np.asarray(fluid.alpha(mq), float).copy(), float(fluid.m_i))
     tables.scribble(t)
     after = (np.asarray(lib("m_scaled_func", fluid.m_scaled_func, pq), float), np.asarray(lib("alpha", fluid.alpha, mq), float), float(fluid.m_i))
